@@ -2,6 +2,7 @@ package vc
 
 import (
 	"fmt"
+	"go/types"
 	"strings"
 
 	"golang.org/x/tools/go/ssa"
@@ -65,6 +66,18 @@ func anchorMatches(ins ssa.Instruction, anchor string) bool {
 			short := FuncName(callee)
 			return full == name || short == name || strings.HasSuffix(short, "."+name) || strings.HasSuffix(full, "/"+name)
 		}
+	case "alloc":
+		// alloc:T : allocation of a T (composite literal &T{...} or new(T))
+		a, ok := ins.(*ssa.Alloc)
+		if !ok {
+			return false
+		}
+		if p, isP := a.Type().Underlying().(*types.Pointer); isP {
+			if n, isN := p.Elem().(*types.Named); isN {
+				return n.Obj().Name() == name
+			}
+		}
+		return false
 	case "mapupdate":
 		_, ok := ins.(*ssa.MapUpdate)
 		return ok
